@@ -15,6 +15,8 @@ TARGETS = {  # mutant -> checks to run (first = the property it was seeded for)
     "C01-m5": ["C01", "C02"],
     "C02-m5": ["C02", "C06"],
     "C07-m6": ["C07", "C08"],
+    "C15-m5": ["C15", "C07"],
+    "C18-m5": ["C18", "C02"],
 }
 def main():
     only = sys.argv[1:]
